@@ -8,7 +8,7 @@ Open Scope Z_scope.
 
 (* A multiplexer's size is its group size plus the selector width for its group count. *)
 Theorem mux_size : forall s u c g, kind s u = KMux c g -> sz s u = (g + selw c)%Z.
-Proof. intros s u c g H. unfold sz. rewrite H. reflexivity. Qed.
+Proof. exact mux_size_proof. Qed.
 Print Assumptions mux_size.
 
 (* Every group of every multiplexer is a well-formed layout within the group size, in every state
